@@ -521,5 +521,9 @@ for r, what in (('R31', 'mixture_model_utils / cacgmm / cACG'), ('R32', 'cwmm / 
 for r, what in (('R41', 'mixture_model_utils / cacgmm / cACG'), ('R42', 'cwmm / cbmm / Watson / Bingham / distribution.utils'), ('R43', 'gmm / gaussian / vMF / gcacgmm / vmfcacgmm'),
                 ('R44', 'beamformer / beamformer_wrapper / math.solve'), ('R45', 'permutation_alignment / initializers'), ('R46', 'mask_module / sxr_module / si_sdr / utils')):
     C.append(dict(id=f'N8-{r}-other-habits', kind='neutral', properties=ALLP, note=f'independent refactoring in a different style of {what}', patch=f'neutral_patches/{r}.patch', edits=[]))
+# ---- fifth campaign: 18-25 edits per patch spread over as many different functions as possible (small helpers, properties, validation code, rarely used branches)
+for r, what in (('R51', 'mixture_model_utils / cacgmm / cACG'), ('R52', 'cwmm / cbmm / Watson / Bingham / distribution.utils'), ('R53', 'gmm / gaussian / vMF / gcacgmm / vmfcacgmm'),
+                ('R54', 'beamformer / beamformer_wrapper / math.solve'), ('R55', 'permutation_alignment / initializers'), ('R56', 'mask_module / sxr_module / si_sdr / utils')):
+    C.append(dict(id=f'N10-{r}-broad', kind='neutral', properties=ALLP, note=f'independent broad refactoring of {what}', patch=f'neutral_patches/{r}.patch', edits=[]))
 out.write_text(json.dumps(C, indent=1))
 print(len(C), 'variants ->', out)
